@@ -1086,12 +1086,22 @@ class Evaluator:
                 continue
             elem = ast.Call(func=ast.Name(id='__elem__', ctx=ast.Load()), args=[it], keywords=[])
             p0.events.append(Event('for', st, U(it), (), (), len(p0.pc), f'for {U(st.target)} in {U(st.iter)}', stmt=st, depth=p0.depth, value=it))
-            # zero iterations
-            pz = p0.fork()
-            self._count(2)
-            pz.facts[f'<for@{st.lineno}:iters>'] = 0
-            pz.pc.append((f'iterations({U(st.iter)})', 0))
-            out.extend(self.block(st.orelse, pz) if st.orelse else [pz])
+            # zero iterations (infeasible for a non-empty display, or when the same call-free collection was already
+            # seen non-empty on this path)
+            ikey = f'<iters {U(it)}>' if not self._has_call(it) else None
+            nonempty = isinstance(it, (ast.List, ast.Tuple, ast.Set)) and it.elts and not any(isinstance(e, ast.Starred) for e in it.elts)
+            known = p0.facts.get(ikey) if ikey else None
+            if not nonempty and known != 'some':
+                pz = p0.fork()
+                self._count(2)
+                if ikey:
+                    pz.facts[ikey] = 'zero'
+                pz.pc.append((f'iterations({U(st.iter)})', 0))
+                out.extend(self.block(st.orelse, pz) if st.orelse else [pz])
+            if known == 'zero':
+                continue
+            if ikey:
+                p0.facts[ikey] = 'some'
             cur = [p0]
             for k in range(1, bound + 1):
                 nxt = []
